@@ -191,18 +191,96 @@ type fetchPlan struct {
 	changes []*treechangeproto.RawTreeChangeWithId
 	heads   []string
 	during  func() // runs while the request is "in flight"
+	hook    *stageHook
+}
+
+// stageHook runs fn once, when the running operation reaches the chosen point.  Points of a remote fetch
+// (BuildSyncTreeOrGetRemote): "lookup" the local storage lookup missed, the tombstone check comes next; "send" the
+// request is about to be sent; "flight" the remote has answered, the response is about to be collected; "deferred"
+// CreateStorageWithDeferredCreation has just handed out the deferred storage (the changes are validated next);
+// "addall" entry of the first AddAll of that storage, before its creating write transaction; "stored" that AddAll
+// returned.  Points of PutSyncTree: "check" its tombstone check is about to read the head storage; "create" entry of
+// CreateTreeStorage (the creating transaction comes next); "created" CreateTreeStorage returned.
+type stageHook struct {
+	point string
+	fn    func()
+	fired bool
+}
+
+func (h *stageHook) at(point string) {
+	if h == nil || h.fired || h.point != point {
+		return
+	}
+	h.fired = true
+	h.fn()
+}
+
+var fetchPoints = []string{"lookup", "send", "flight", "deferred", "addall", "stored"}
+var putPoints = []string{"check", "create", "created"}
+
+// hookSpace is the space storage handed to synctree (SpaceStorage of BuildDeps = the TreeStorageCreator of the
+// validator): the real one, with the stage hook called around the calls the fetch / put path makes.
+type hookSpace struct {
+	spacestorage.SpaceStorage
+	h *stageHook
+}
+
+func (s *hookSpace) TreeStorage(c context.Context, id string) (objecttree.Storage, error) {
+	st, err := s.SpaceStorage.TreeStorage(c, id)
+	if err != nil && errors.Is(err, treestorage.ErrUnknownTreeId) {
+		s.h.at("lookup")
+	}
+	return st, err
+}
+
+func (s *hookSpace) HeadStorage() headstorage.HeadStorage {
+	s.h.at("check")
+	return s.SpaceStorage.HeadStorage()
+}
+
+func (s *hookSpace) CreateTreeStorage(c context.Context, payload treestorage.TreeStorageCreatePayload) (objecttree.Storage, error) {
+	s.h.at("create")
+	st, err := s.SpaceStorage.CreateTreeStorage(c, payload)
+	s.h.at("created")
+	return st, err
+}
+
+func (s *hookSpace) CreateStorageWithDeferredCreation(c context.Context, payload treestorage.TreeStorageCreatePayload) (objecttree.Storage, error) {
+	st, err := s.SpaceStorage.CreateStorageWithDeferredCreation(c, payload)
+	if err != nil {
+		return st, err
+	}
+	s.h.at("deferred")
+	return &hookStorage{Storage: st, h: s.h}, nil
+}
+
+// hookStorage: the deferred storage with the hook around its first AddAll (the call that creates the tree)
+type hookStorage struct {
+	objecttree.Storage
+	h *stageHook
+}
+
+func (s *hookStorage) AddAll(c context.Context, changes []objecttree.StorageChange, heads []string, commonSnapshot string) error {
+	s.h.at("addall")
+	err := s.Storage.AddAll(c, changes, heads, commonSnapshot)
+	s.h.at("stored")
+	return err
 }
 
 func (r *remote) Broadcast(ctx context.Context, hu *objectmessages.HeadUpdate) error { return nil }
 func (r *remote) QueueRequest(ctx context.Context, req syncdeps.Request) error      { return nil }
 func (r *remote) SendTreeRequest(c context.Context, req syncdeps.Request, collector syncdeps.ResponseCollector) error {
 	r.invoked = true
+	if r.plan != nil {
+		r.plan.hook.at("send")
+	}
 	if r.plan == nil || !r.plan.has {
 		return errors.New("remote: no such tree")
 	}
 	if r.plan.during != nil {
 		r.plan.during()
 	}
+	r.plan.hook.at("flight")
 	return collector.CollectResponse(c, "peerR", req.ObjectId(), &response.Response{
 		SpaceId: r.w.f.spaceId, ObjectId: req.ObjectId(), Root: r.plan.root, Changes: r.plan.changes, Heads: r.plan.heads,
 	})
@@ -348,13 +426,19 @@ func (w *World) Reset(univ []string) {
 	w.uses++
 }
 
-func (w *World) deps(plan *fetchPlan) synctree.BuildDeps {
+func (w *World) deps(plan *fetchPlan) synctree.BuildDeps { return w.depsHooked(plan, nil) }
+
+func (w *World) depsHooked(plan *fetchPlan, h *stageHook) synctree.BuildDeps {
 	w.rem = &remote{RequestFactory: synctree.NewRequestFactory(w.f.spaceId), w: w, plan: plan}
+	var sp spacestorage.SpaceStorage = w.sp
+	if h != nil {
+		sp = &hookSpace{SpaceStorage: w.sp, h: h}
+	}
 	return synctree.BuildDeps{
 		SpaceId:            w.f.spaceId,
 		SyncClient:         w.rem,
 		AclList:            w.f.acl,
-		SpaceStorage:       w.sp,
+		SpaceStorage:       sp,
 		OnClose:            func(id string) {},
 		SyncStatus:         noStatus{},
 		BuildObjectTree:    objecttree.BuildTestableTree,
@@ -389,17 +473,23 @@ func classify(err error) string {
 	return "OErrOther"
 }
 
-func (w *World) Put(id, parent string, derived bool) (string, error) {
-	_, err := synctree.PutSyncTree(ctx, treestorage.TreeStorageCreatePayload{RootRawChange: w.rootOf(id, parent, derived)}, w.deps(nil))
+func (w *World) Put(id, parent string, derived bool) (string, error) { return w.PutHooked(id, parent, derived, nil) }
+
+func (w *World) PutHooked(id, parent string, derived bool, h *stageHook) (string, error) {
+	_, err := synctree.PutSyncTree(ctx, treestorage.TreeStorageCreatePayload{RootRawChange: w.rootOf(id, parent, derived)}, w.depsHooked(nil, h))
 	w.flush()
 	return classify(err), err
 }
 
 func (w *World) Fetch(id, parent string, derived bool, changeId string, has bool, during func()) (string, error) {
+	return w.FetchHooked(id, parent, derived, changeId, has, during, nil)
+}
+
+func (w *World) FetchHooked(id, parent string, derived bool, changeId string, has bool, during func(), h *stageHook) (string, error) {
 	root := w.rootOf(id, parent, derived)
-	plan := &fetchPlan{has: has, root: root, heads: []string{changeId}, during: during,
+	plan := &fetchPlan{has: has, root: root, heads: []string{changeId}, during: during, hook: h,
 		changes: []*treechangeproto.RawTreeChangeWithId{w.f.creator.CreateRaw(changeId, w.f.aclHead, id, false, id)}}
-	deps := w.deps(plan)
+	deps := w.depsHooked(plan, h)
 	rem := w.rem
 	_, err := synctree.BuildSyncTreeOrGetRemote(peer.CtxWithPeerId(ctx, "peerR"), id, deps)
 	w.flush()
